@@ -33,6 +33,14 @@ def run(ctx):
         return
     ctx.regen("all")
     okp, log = ctx.prove("props/C08.v", "C08")
+    # Go-source corpus: spellings of the error check outside the generator (type switches on the error with nil /
+    # interface / concrete arms, value switches, errors.Is, reversed and negated comparisons)
+    import os
+    from . import markers
+    nm, mbad = markers.check_markers(os.path.join(common.VERIF, "corpus", "c08"))
+    ctx.obligation("whole tool on corpus/c08: %d marked dereferences of guarded results under check spellings outside the generator: reported iff the path has not established err == nil" % nm, nm > 0 and not mbad)
+    for b in mbad[:3]:
+        ctx.violation("spelling", "C08 fails on the real tool: %s\nreplay: bin/harness analyze -dir corpus/c08\n" % b)
     # known finding F26: reproduce it from the corpus (and its control)
     from . import progcorpus as PC
     corpus = PC.c08_cases()
